@@ -41,12 +41,31 @@ def run_c12(tier):
     cases = tlc_cases(res.out)
     reps = 2 if tier == 'quick' else 60
     jobs = [{'kind': 'keygen', 'seed': vlib.jseed(seed, i, r), 'case': cs} for r in range(reps) for i, cs in enumerate(cases)]
+    # pools of key objects: caches x re-decoding x aggregation (KeyPool.tla), every behaviour
+    pc = {'MaxLen': 3 if tier == 'quick' else 4, 'MaxPool': 5, 'StaleBug': False}
+    res = vlib.tlc(SPEC, 'KeyPool', vlib.cfg(pc, invariants=['CacheIsScalarTimesG', 'Emit'], properties=['CacheOnlyFills', 'ScalarsNeverChange']), name='kp')
+    if not res.ok:
+        raise vlib.Undecided('KeyPool: %s %s' % (res.violated, res.error))
+    ck.add_states(res, 'pool of BLS key objects: every sequence of %d PublicKey / re-decode / aggregate actions' % pc['MaxLen'])
+    neg = vlib.tlc(SPEC, 'KeyPool', vlib.cfg(dict(pc, StaleBug=True), invariants=['CacheIsScalarTimesG']), name='kpneg')
+    if 'CacheIsScalarTimesG' not in neg.violated:
+        raise vlib.Undecided('negative control: an aggregation that pre-fills the cache from some inputs satisfies CacheIsScalarTimesG')
+    ck.cov['negative_controls'] = 1
+    pools = tlc_cases(res.out)
+    if len(pools) < 500:
+        raise vlib.Undecided('KeyPool enumeration produced %d behaviours' % len(pools))
+    ck.cov['pool_behaviours'] = len(pools)
+    preps = 1 if tier == 'quick' else 3
+    jobs += [{'kind': 'keygen', 'seed': vlib.jseed(seed, i, 1000 + r), 'case': cs} for r in range(preps) for i, cs in enumerate(pools)]
     execute(ck, 'C12', jobs)
+    for cs in pools:
+        ck.case(vlib.digest(cs['hist']), any(h['op'] == 'Agg' for h in cs['hist']))
     for cs in cases:
         ck.case(vlib.digest([cs['job'], cs['calls']]), True)
     ck.cov['traces_validated_against_impl'] = len(jobs)
     ck.sample(cases[40])
     ck.sample([cs for cs in cases if cs['job']['kind'] == 'life'][0])
+    ck.sample([cs for cs in pools if sum(h['op'] == 'Agg' for h in cs['hist']) == 2][0])
     ck.assumptions = ['reference derivations: HKDF written from RFC 5869 over crypto/hmac; IETF BLS KeyGen; ECDSA okm mod (n-1) + 1',
                       'public keys: scalar * generator with math/big curve arithmetic; BLS G2 encodings compared in the library\'s coefficient order']
     return ck.finish(rule='cases = every seed length 0..300 per algorithm (random and all-zero seeds) and every life cycle of a key object, '
